@@ -1228,6 +1228,7 @@ static void cgi_trigger_hctx_timeout(handler_ctx * const hctx, const char * cons
     }
 
     if (0 == r->http_status) r->http_status = 504; /* Gateway Timeout */
+    http_response_backend_error(r); /*(cut off response if already started)*/
     cgi_connection_close(hctx);
 }
 
